@@ -84,7 +84,7 @@ func BuildSubjectAltNameExtension(hosts string) (*pkix.Extension, error) {
 				ip = eip[:]
 			}
 			ids = append(ids, Identity{Type: TypeIP, Value: ip})
-		} else if strings.HasPrefix(host, spiffe.URIPrefix) {
+		} else if hasSpiffeScheme(host) {
 			ids = append(ids, Identity{Type: TypeURI, Value: []byte(host)})
 		} else {
 			ids = append(ids, Identity{Type: TypeDNS, Value: []byte(host)})
@@ -97,6 +97,13 @@ func BuildSubjectAltNameExtension(hosts string) (*pkix.Extension, error) {
 	}
 
 	return san, nil
+}
+
+// hasSpiffeScheme reports whether host is a URI with the SPIFFE scheme. URI schemes are case-insensitive
+// (RFC 3986, section 3.1) and the peer certificate verifier accepts them as such; an identity like
+// "SPIFFE://td/ns/foo/sa/bar" must therefore be encoded as a URI, not as a DNS name.
+func hasSpiffeScheme(host string) bool {
+	return len(host) >= spiffe.URIPrefixLen && strings.EqualFold(host[:spiffe.URIPrefixLen], spiffe.URIPrefix)
 }
 
 // BuildSANExtension builds a `pkix.Extension` of type "Subject
